@@ -4,11 +4,31 @@
    the tables regenerated from boltons/urlutils.py on every run.  NFC, IDNA and
    inet_pton are oracle functions (record [oracles]); UTF-8 is proved, not assumed. *)
 From Coq Require Import String.
-From Boltons Require Import Lib.Prelude Lib.C06_Text Spec.C06_Spec Model.C06_Model Gen.C06_Gen
+From Boltons Require Import Lib.Prelude Lib.C06_Text Spec.C06_Spec Model.C06_Model Gen.C06_Gen Gen.C06_Src
+  Proofs.C06_SrcEq
   Proofs.C06_Codec Proofs.C06_Utf8 Proofs.C06_Quote Proofs.C06_Lists Proofs.C06_Round Proofs.C06_Legal
   Proofs.C06_Shape Proofs.C06_Parsed Proofs.C06_QuoteMin Proofs.C06_Parts Proofs.C06_RoundMin Proofs.C06_Total
   Proofs.C06_GenOk.
 Open Scope N_scope.
+
+(* (T) THE FUNCTION BODIES.  Gen/C06_Src.v is regenerated on every run from the AST of
+   boltons/urlutils.py (harness/translators/c06_src.py, fail closed); each generated function is
+   equal to the model function the theorems below are about, for all arguments. *)
+Theorem C06_source_quote_path_part : forall T O s full, src_quote_path_part T O s full = quote T O full CPath s.
+Proof. exact src_quote_path_part_eq. Qed.
+Print Assumptions C06_source_quote_path_part.
+Theorem C06_source_quote_query_part : forall T O s full, src_quote_query_part T O s full = quote T O full CQuery s.
+Proof. exact src_quote_query_part_eq. Qed.
+Print Assumptions C06_source_quote_query_part.
+Theorem C06_source_quote_fragment_part : forall T O s full, src_quote_fragment_part T O s full = quote T O full CFrag s.
+Proof. exact src_quote_fragment_part_eq. Qed.
+Print Assumptions C06_source_quote_fragment_part.
+Theorem C06_source_quote_userinfo_part : forall T O s full, src_quote_userinfo_part T O s full = quote T O full CUser s.
+Proof. exact src_quote_userinfo_part_eq. Qed.
+Print Assumptions C06_source_quote_userinfo_part.
+Theorem C06_source_unquote_to_bytes : forall T s, src_unquote_to_bytes T s = unquote_to_bytes T s.
+Proof. exact src_unquote_to_bytes_eq. Qed.
+Print Assumptions C06_source_unquote_to_bytes.
 
 (* (T) the regenerated tables: every map entry is the byte itself or %XX, a byte is left
    unescaped only where RFC 3986 allows it at that position (so never a character the
